@@ -216,3 +216,20 @@ func H_C13_commit_persists() {
 		vfReach("not-saved-this-time")
 	}
 }
+
+// The height Info reports after a restart is the one EndBlock recorded: every EndBlock, in dev
+// mode or not, with or without validator changes, records the height of the block it ends.
+func H_C13_endblock_records_height() {
+	b := vfBounds()
+	b.noFork, b.noCheckTx = true, true
+	app := vfApp(b) // DevMode is arbitrary
+	h := vfI64("height")
+	_ = app.EndBlock(abcitypes.RequestEndBlock{Height: h})
+	vfAssert(app.LastBlockHeight == h, "endblock-records-the-block-height")
+	vfAssert(app.Info(abcitypes.RequestInfo{}).LastBlockHeight == h, "info-reports-the-last-ended-block")
+	if app.DevMode {
+		vfReach("dev-mode")
+	} else {
+		vfReach("normal-mode")
+	}
+}
